@@ -75,6 +75,16 @@ pub fn gen_sugg_batch(d: &mut D, families: usize) -> Vec<Spec> {
         if d.ratio(1, 3) {
             ec.rename_all = Some(d.pick(&["camelCase", "PascalCase", "lowercase"]).to_string());
         }
+        // a skipped variant may answer to the very name of a live one declared after it (it reserves nothing: the live
+        // one is selected by that name, and the name stays a candidate for suggestions)
+        if d.ratio(1, 3) {
+            if let Some(i) = (0..vs.len()).find(|i| vs[*i].skip) {
+                if let Some(j) = ((i + 1)..vs.len()).find(|j| !vs[*j].skip) {
+                    let name = crate::spec::effective_name(&vs[j].rust_name, &vs[j].rename, &ec.rename_all, true);
+                    vs[i].rename = Some(name);
+                }
+            }
+        }
         specs.push(Spec { id: eid, tr: Trait::FromMeta, container: ec, body: Body::Enum(vs), magic: vec![], purpose: "c17-enum".into() });
         // Leaf: nested (non-flatten) receiver
         let lid = specs.len();
